@@ -205,6 +205,35 @@ fn diff_loop<T: F, const N: usize>(out: &mut Out, key: &str, name: &str, full: b
         let (a, b) = (*a, *b);
         judge(out, &format!("{}:{}", name, key), guard(|| vec![f(a, b)]), &|| format!("{}.{}({})", show(&a), name, show(&b)));
     } }
+    // "all in-range colours": interior colours, and for every colour its near-identical partners (a difference is a cancelling
+    // expression exactly there): the colour itself, each component moved by a few ulps or by one billionth of its range, all at once
+    let bx = box_of::<N>(key);
+    let mut rng = Rng::new(0xC07D1FF ^ (key.len() as u64) << 8 ^ (name.len() as u64) << 16 ^ if T::TAG == "f32" { 1 } else { 2 });
+    let range_of = |c: &Comp| match *c { Comp::R(lo, hi) => (lo, hi), Comp::Hue => (-180.0, 360.0) };
+    let mut base: Vec<[T; N]> = cs.iter().step_by(if full { 7 } else { 3 }).cloned().collect();
+    for _ in 0..(if full { 4000 } else { 300 }) {
+        let mut a = [T::of(0.0); N]; let mut ok = true;
+        for i in 0..N { let (lo, hi) = range_of(&bx[i]); let (lo2, hi2) = if let Comp::Hue = bx[i] { (0.0, 360.0) } else { (lo, hi) };
+            a[i] = T::of(rng.range(lo2, hi2)); ok &= admissible(a[i].to64(), lo, hi); }
+        let base_name = key.split(':').next().unwrap();
+        if (base_name == "Hwb" || base_name == "Okhwb") && a[1].to64() + a[2].to64() > 1.0 { ok = false; }
+        if ok { base.push(a); }
+    }
+    let mut pair = |a: [T; N], b: [T; N], cls: &str| {
+        for i in 0..N { let (lo, hi) = range_of(&bx[i]); if !admissible(b[i].to64(), lo, hi) { return; } }
+        out.count(&format!("cls:diff-near:{}", cls));
+        judge(out, &format!("{}:{}", name, key), guard(|| vec![f(a, b)]), &|| format!("{}.{}({})", show(&a), name, show(&b)));
+        judge(out, &format!("{}:{}", name, key), guard(|| vec![f(b, a)]), &|| format!("{}.{}({})", show(&b), name, show(&a)));
+    };
+    for a in base {
+        pair(a, a, "same");
+        for i in 0..N {
+            let (lo, hi) = range_of(&bx[i]);
+            for k in [1i64, -1, 3, -7, 64] { let mut b = a; b[i] = a[i].nudge(k); pair(a, b, "ulps"); }
+            for d in [1e-9 * (hi - lo), -1e-9 * (hi - lo), 1e-6 * (hi - lo)] { let mut b = a; b[i] = T::of(a[i].to64() + d); pair(a, b, "billionth"); }
+        }
+        let mut b = a; for i in 0..N { b[i] = a[i].nudge(if i % 2 == 0 { 2 } else { -3 }); } pair(a, b, "all-ulps");
+    }
 }
 
 fn full_cols<T: F, const N: usize>(name: &str) -> Vec<[T; N]> { lattice_colours::<T, N>(&box_of::<N>(name), false, None) }
